@@ -1,5 +1,6 @@
 import P9Model.Conc.RWMutex
-import P9Model.Lemmas.LockFacts
+import P9Model.Lemmas.Lock.Lockset
+import P9Model.Lemmas.Lock.Order
 import P9Model.Props.C15
 /-!
 # C16 — Global progress and isolation across concurrent sessions
